@@ -126,6 +126,27 @@ CHECKS = {
         'Thread hand-offs are modelled as loop callbacks at generated positions; handler errors of _schedule_rpc are compared through __cause__.',
         'DESIGN.md section 3 C20',
     ),
+    'C16': (
+        'exploration',
+        'property-based testing: differential twin-run oracle (remotely controlled process vs directly controlled twin at quiescent delivery points), handler-return-value comparison for in-step deliveries, broadcast-sequence invariant, injected broadcast faults',
+        'An in-process kiwipy LocalCommunicator (bare, or wrapped in LoopCommunicator) carries RPC pause/play/kill/status sent by RemoteProcessThreadController or RemoteProcessController and broadcast pause_all/play_all/kill_all. All sequences of <=2 (quick) / <=3 (thorough) messages at quiescent points are enumerated for 5 catalogue programs: the deduplicated observable history (state, paused, status, outputs), the final outcome and every unwrapped reply must equal those of a twin that receives the equivalent direct call. In-step deliveries compare the reply with the recorded return value of the very pause/play/kill call. The state_changed.<from>.<to> broadcasts recorded by an independent subscriber must match the entered states once each, in order, sent by the pid; each of the first 6 broadcasts is made to fail with each tolerated exception and must leave the run unchanged; terminated processes must be unroutable.',
+        'LocalCommunicator stands in for RabbitMQ (synchronous delivery; cross-thread hand-offs become loop callbacks at harness-chosen positions). Error replies are compared through __cause__. Messages sent after termination are unroutable while the twin call is a no-op.',
+        'DESIGN.md section 3 C16',
+    ),
+    'C17': (
+        'exploration',
+        'stateful / model-based property testing: generated task histories against a model of replies, persister content and per-instance executed steps, for every launcher configuration',
+        'ProcessLauncher is driven directly and through LoopCommunicator(LocalCommunicator) with every combination of persister (none / in-memory / pickle) and loader (default / custom counting loader): create, launch and continue tasks with persist / nowait / tag flags over four process classes, harness checkpoints under tags, resumes and unknown task types. Checked: replies (pid / outputs / process error / TaskRejected), that a created process never runs, that a continued instance executes exactly the steps after its checkpoint, persister keys, rejected tasks have no effect, the configured loader resolves classes. All single tasks and a family of task pairs are enumerated per configuration.',
+        'pids are explicit constructor keyword arguments; a continue for an absent checkpoint must fail without running anything.',
+        'DESIGN.md section 3 C17',
+    ),
+    'C18': (
+        'exploration',
+        'property-based testing over generated process sets and FIFO interleavings on the harness-owned loop; Process.current() sampled at every user-code point and between callbacks',
+        'Up to 4 generated processes with async steps, gates, launched children, re-entrantly executed processes (nest_asyncio on the harness loop, in dedicated worker processes) and call_soon callbacks run on one loop with staggered starts: current() must be the running process at every step entry, after every await, in every callback, after launch() and after a nested execute(), and in every lifecycle hook the run produces by itself; the harness must see None between callbacks. All pairs (quick) / triples (thorough) of 6 catalogue shapes at 3 start offsets are enumerated.',
+        'Construction-time hooks and hooks triggered by external pause/play/kill run in the caller and are not sampled; no control requests.',
+        'DESIGN.md section 3 C18',
+    ),
 }
 
 PENDING = {f'C{n:02d}': 'check not built yet in this round (see DESIGN.md section 9 for the build order)' for n in range(1, 21)}
